@@ -17,7 +17,7 @@ pub const ASSUMPTIONS: &[&str] = &[
     "ANSI twin = same configuration with ANSI on, English off",
 ];
 
-const WRAPS: &[(&str, &str)] = &[("", ""), ("(", ")"), ("\"", "\""), ("'", "'."), ("[", "]!"), ("", "?")];
+const WRAPS: &[(&str, &str)] = &[("", ""), ("(", ")"), ("\"", "\""), ("'", "'."), ("[", "]!"), ("", "?"), ("", ":`"), ("(", ":`)")];
 /// wrappers whose characters the fixed layouts can produce
 const FIXED_WRAPS: &[(&str, &str)] = &[("", ""), ("(", ")"), ("\"", "\""), ("'", "'"), ("", "!"), ("\"(", "?")];
 
